@@ -34,13 +34,13 @@ import (
 const tlsHost = "verif.test"
 
 var (
-	certOnce    sync.Once
+	c04CertOnce    sync.Once
 	harnessCert tls.Certificate
 	harnessPool *x509.CertPool
 )
 
 func harnessCertificate() tls.Certificate {
-	certOnce.Do(func() {
+	c04CertOnce.Do(func() {
 		key, err := ecdsa.GenerateKey(elliptic.P256(), rand.Reader)
 		if err != nil {
 			panic(err)
